@@ -150,6 +150,8 @@ def classify_function(modname, fname):
                 if kind:
                     block_vars[_name(node.target)] = kind
 
+        inner_loop_vars = {_name(n.target) for n in ast.walk(loop) if isinstance(n, ast.For) and _name(n.target)}
+
         def kind_of(sub):
             arr = _base_array(sub)
             if arr in local_arrays:
@@ -166,7 +168,19 @@ def classify_function(modname, fname):
                 return block_vars[nm]
             if nm in cursors:
                 return 'cursor'
-            # i + const with i a block variable and a consistent shift is still private only if the READ side is shifted:
+            # i + c / i - c with i private (prange variable or block variable) and c invariant in the loop nest:
+            # distinct i give distinct cells, so the store is as private as i itself
+            if isinstance(first, ast.BinOp) and isinstance(first.op, (ast.Add, ast.Sub)):
+                for var_side, other in ((first.left, first.right), (first.right, first.left)):
+                    if isinstance(first.op, ast.Sub) and var_side is first.right:
+                        continue
+                    v = _name(var_side)
+                    inner = {X} | set(block_vars) | set(tid_vars) | set(cursors) | inner_loop_vars
+                    if v is not None and not any(_mentions(other, w) for w in inner):
+                        if v == X:
+                            return 'loopvar'
+                        if v in block_vars:
+                            return 'block-shifted'
             return 'shared'
 
         for node in ast.walk(loop):
